@@ -28,6 +28,7 @@ PROPERTY = "C16"
 FUNCTIONS = ["ProgressBar._formatter_percent", "ProgressBar.bar_offset/_formatter_bar", "ProgressBar.set_progress/advance/start/finish/display/clear/_overwrite/_set_max_steps/_determine_best_format",
              "SectionOutput.clear/write (through the bar)"]
 PART = {}
+EXTRA_BOUNDS = 'also: custom formats (message / two-line / three-line) with messages of length 1/4/30 on ANSI, plain, section and middle-section outputs at a terminal one column wider than the longest line; bar widths 1 and 2; a section of a plain output; a bar handed an I/O object with a decorated standard and a plain error output; E2 set_progress with minimum and maximum interval independent.'
 BOUNDS = {"quick": "E2: percent for all 0<=step<=max<=65535; bar width for all step<=max<=4095, bar_width<=64; set_progress for |arg|<=4095, max<=4095, any float clock readings in [0,1e6]; "
                    "E1: start + 2 (all configs) or 3 (main config) operations from 8 + finish, clock advance before each from {0, 50 ms, 2 s}; maxima {0,3,10}; bar width 10; min interval 100 ms; ANSI/plain/section/quiet",
           "thorough": "E1: 3 middle operations on every config, 4 on the main one; maxima {0,1,3,10,50}; bar widths {1,10,28}"}
